@@ -187,13 +187,30 @@ func (x *XmlNode) Find(start int, m meta.Definition) int {
 
 func (x *XmlNode) Choose(sel *node.Selection, choice *meta.Choice) (*meta.ChoiceCase, error) {
 	for _, c := range choice.Cases() {
-		for _, m := range c.DataDefinitions() {
-			if x.Find(0, m) >= 0 {
-				return c, nil
-			}
+		if x.caseHasData(c) {
+			return c, nil
 		}
 	}
 	return nil, nil
+}
+
+// caseHasData reports whether an element for any node of the case is present,
+// looking through choices nested in the case (a choice has no element of its own)
+func (x *XmlNode) caseHasData(c *meta.ChoiceCase) bool {
+	for _, m := range c.DataDefinitions() {
+		if nested, isChoice := m.(*meta.Choice); isChoice {
+			for _, nc := range nested.Cases() {
+				if x.caseHasData(nc) {
+					return true
+				}
+			}
+			continue
+		}
+		if x.Find(0, m) >= 0 {
+			return true
+		}
+	}
+	return false
 }
 
 // Stubs non-reader funcs
